@@ -24,9 +24,10 @@ DAEMON_KEY, DAEMON_VAL = "DMON", b"daemon-wide"
 
 @api.expose
 class CtxObj:
-    def __init__(self, sched):
+    def __init__(self, sched, taint=False):
         self._s = sched
         self._snaps = {}
+        self._taint = taint
 
     def _do(self, tok, key, mutate):
         c = cctx.client
@@ -41,6 +42,10 @@ class CtxObj:
                 cctx.response_annotations[key] = tok.encode()
             else:
                 cctx.response_annotations = {key: tok.encode()}
+        if self._taint:
+            # a method may write into the request annotations it was handed (Pyro's own client code does, when a method
+            # forwards a SerializedBlob through a proxy): that dict belongs to this request alone
+            cctx.annotations["TNT" + str(len(self._snaps) % 10)] = tok.encode()
 
     def ret(self, tok, key, mutate, work=0, pad=""):
         if work:
@@ -97,7 +102,8 @@ def _codes():
     global _CODES
     if _CODES is None:
         _CODES = S.code_objects(SV.Daemon.handleRequest, SV.Daemon._handshake, SV.Daemon._sendExceptionResponse,
-                                SV._OnewayCallThread)
+                                SV._OnewayCallThread, PR.SendingMessage, PR.ReceivingMessage,
+                                *[v for v in vars(PR).values() if hasattr(v, "__code__") and getattr(v, "__module__", "") == PR.__name__])
     return _CODES
 
 
@@ -110,7 +116,7 @@ class CtxWorld(World):
             "time (virtual clock)", "uuid4 (seeded)"]
     PROBES = ["raise_after_set", "oneway_mutate", "worker_reuse", "handshake_after_raise", "batch", "ping", "prop",
               "assign_idiom", "mutate_idiom", "multiplex", "thread", "preempted", "pool_full_retry", "oneway_delayed", "reply_reset_then_reconnect", "bad_handshake", "peer_address_unavailable", "reset_after_oneway_request",
-              "daemon_annotations_hook", "stream_item_context"]
+              "daemon_annotations_hook", "stream_item_context", "request_annotations_written_in_place", "request_without_annotations"]
     RULE = ("plan = (server type, pool size 1-2, serializer, 2-3 clients x 1-2 sessions x 1-5 calls of kinds "
             "ret/boom/ow/plain/batch/prop/ping/stream (an item stream whose generator body records the context during every fetch), each with a unique annotation key set by assignment or mutation, "
             "pre-emption probabilities); distinct = distinct interleaving digest; non-trivial = at least two clients' "
@@ -132,7 +138,7 @@ class CtxWorld(World):
 
         def call():
             kn[0] += 1
-            k = rng.choice(["ret", "ret", "boom", "boom", "ow", "plain", "batch", "prop", "ping", "stream"])
+            k = rng.choice(["ret", "ret", "boom", "boom", "ow", "plain", "batch", "prop", "ping", "stream", "bare", "bare"])
             return {"kind": k, "key": "K%03d" % kn[0], "mutate": rng.random() < 0.5, "pause": rng.choice([0, 0, 0.01]),
                     "ow_delay": rng.choice([0, 0, 0.005, 0.02]), "work": rng.choice([0, 0, 0.01, 0.04]),
                     "reset_reply": k in ("ret", "boom", "plain") and rng.random() < 0.12,
@@ -152,6 +158,8 @@ class CtxWorld(World):
         plan = {"servertype": servertype, "pool": [1, rng.randint(1, 2)], "serializer": rng.choice(SERIALIZERS),
                 "clients": clients, "p_line": rng.choice([0.0, 0.01, 0.03]) if servertype == "thread" else 0.0,
                 "p_block": rng.choice([0.0, 0.3, 0.7, 1.0]), "net": {"shuffle_select": rng.random() < 0.5}}
+        if rng.random() < 0.25:
+            plan["taint"] = True        # methods write into the request annotations dict they are handed
         if rng.random() < 0.3:
             # the application overrides Daemon.annotations(): its own key travels with every reply, from a dict the
             # daemon keeps ("persistent") or builds per call ("fresh")
@@ -213,7 +221,9 @@ class CtxWorld(World):
             AnnDaemon.extra = {DAEMON_KEY: DAEMON_VAL}
         daemon = (AnnDaemon if dmode else SV.Daemon)(host="127.0.0.1", port=0)
         addr = daemon.transportServer.sock.getsockname()
-        obj = CtxObj(sched)
+        obj = CtxObj(sched, taint=bool(plan.get("taint")))
+        if plan.get("taint"):
+            ctx.probe("request_annotations_written_in_place")
         uri = daemon.register(obj, "o")
         loop = threading.Thread(target=daemon.requestLoop, name="daemon-loop")
         loop.start()
@@ -311,7 +321,13 @@ class CtxWorld(World):
                            "laddr": p._pyroLocalSocket}
                     outcome = "ok"
                     try:
-                        if kind == "plain":
+                        if kind == "bare":
+                            # a request without any annotation and without a correlation id
+                            cctx.annotations = {}
+                            cctx.correlation_id = None
+                            rec["corr"] = None
+                            p.plain(tok)
+                        elif kind == "plain":
                             p.plain(tok)
                         elif kind == "prop":
                             p.prop
@@ -437,12 +453,19 @@ class CtxWorld(World):
                 continue
             served_clients.add(tok.split("s")[0])
             req = req_by_tok.get(tok)
+            if req is None and kind == "bare":
+                req = reqs.get((rec["conn"], rec["seq"]))
+                ctx.probe("request_without_annotations")
             if req is None:
                 raise S.HarnessError("middlebox did not see the request of %s" % tok)
             for sn in snaps:
                 bad = []
-                if sn["ann"].get("REQA") != tok.encode():
-                    bad.append("annotations %r" % (sn["ann"],))
+                sent = {k: bytes(v) for k, v in req["ann"].items()}
+                own_marks = (tok.encode(), tok.split(".i")[0].encode())
+                seen_ann = {k: v for k, v in sn["ann"].items() if not (k.startswith("TNT") and v in own_marks)}
+                if seen_ann != sent:
+                    # exactly the annotations of the request: nothing missing, nothing left over from another request
+                    bad.append("annotations %r (request carried %r)" % (seen_ann, sent))
                 if sn["seq"] != req["seq"]:
                     bad.append("seq %r (request had %r)" % (sn["seq"], req["seq"]))
                 if (sn["flags"] | N.FLAG_COMPRESSED) != (req["flags"] | N.FLAG_COMPRESSED):
